@@ -251,3 +251,10 @@ Definition credit_one (reward : Z) (cap : dec) : outcome Z :=
   do a <- relabel (dmul (dec_of_int reward) cap); Ok (round_int a).
 Definition credit_two (reward : Z) (cap1 cap2 : dec) : outcome Z :=
   do a <- credit_one reward cap1; do b <- credit_one reward cap2; Ok (a + b).
+
+(* UpsertUBI.Apply after b963c04: Period = 0 refused, the sums in sdk.Int (no wrap-around) *)
+Definition ubi_apply_exact (ubi_sum amount period hardcap : Z) : outcome Z :=
+  if period =? 0 then Err "ubi sum overflows hardcap"
+  else if hardcap <? ubi_sum + Z.quot (amount * 31556952) period then Err "ubi sum overflows hardcap"
+  else Ok amount.
+Definition ubi_apply_on (uint64_arith : bool) := if uint64_arith then ubi_apply else ubi_apply_exact.
